@@ -45,3 +45,5 @@ def run(check):
     check.run_rule('C06.R10', lambda c: rule_attribute_handler(c, 'C06.R10'))
     from ..rules_derived import rule_partial_function_explicit
     check.run_rule('C06.R11', lambda c: rule_partial_function_explicit(c, 'C06.R11'))
+    from ..rules_visitor import rule_attribute_object_once
+    check.run_rule('C06.R10b', lambda c: rule_attribute_object_once(c, 'C06.R10'))
